@@ -4,7 +4,10 @@ package authgrants
 // confirmation, denial) and the proxy messages round-trip; fields that do not
 // fit their length prefix are rejected by the encoder; whatever the reader
 // accepts re-encodes to something that decodes to the same value ("what a
-// principal shows and approves is what the target receives").
+// principal shows and approves is what the target receives"). Every decode is
+// repeated with the same bytes delivered in pieces (wire.Delivery: short reads,
+// (0, nil) results, end-of-stream reported with the last bytes) and must give
+// the same result.
 
 import (
 	"bytes"
@@ -66,6 +69,8 @@ type c18Intent struct {
 	Cert     c18Cert `json:"cert"`
 	CmdLen   int     `json:"clen"` // only on the wire for grant type Command
 	CmdSeed  uint64  `json:"cseed"`
+	// how the bytes are handed to the reader the second time (zero value: in one piece only)
+	Dlv wire.Delivery `json:"dlv"`
 }
 
 func (c c18Cert) fill(cert *certs.Certificate) {
@@ -254,6 +259,14 @@ func c18IntentRunA(c c18Intent, v *vlib.Verdict) {
 		if !fits {
 			v.Label("beyond-assumed-limit-but-round-trips")
 		}
+		wire.Redeliver(v, "C18", "authgrants."+name, enc, true, c.Dlv, true, len(enc), func(st *wire.Stream) (string, string, error) {
+			again, err := read(st)
+			if err != nil {
+				return "", "", err
+			}
+			f, d := c18IntentDiff(&got, &again)
+			return f, d, nil
+		})
 		return
 	}
 	what := fmt.Sprintf("reader err=%v, first differing field %q (%s), consumed %d of %d bytes", derr, field, detail, st.Consumed, len(enc))
@@ -340,6 +353,7 @@ func c18IntentGen(t *rapid.T) c18Intent {
 		Cert:     c18CertGen(t),
 		CmdLen:   c18StrLen(t, "clen"),
 		CmdSeed:  rapid.Uint64().Draw(t, "cseed2"),
+		Dlv:      wire.DrawDelivery(t),
 	}
 }
 
@@ -364,7 +378,7 @@ func TestVerifC18IntentGrantSweep(t *testing.T) {
 				c := c18Intent{Msg: msg, Grant: g, Port: 22, Start: 1700000000, Exp: 1700003600,
 					SNI: c18Name{Type: 1, Len: shape[0], Seed: uint64(i)}, UserLen: shape[1], UserSeed: uint64(i) + 1,
 					Cert:   c18Cert{Version: 1, Type: 1, Issued: 1700000000, Expires: 1800000000, Seed: uint64(i) + 2, Names: []c18Name{{Type: 0, Len: 8, Seed: 5}}},
-					CmdLen: shape[2], CmdSeed: uint64(i) + 3}
+					CmdLen: shape[2], CmdSeed: uint64(i) + 3, Dlv: wire.DeliveryFor(uint64(i))}
 				if !vlib.Each(t, rec, c, c18IntentRunA) {
 					return
 				}
@@ -372,7 +386,7 @@ func TestVerifC18IntentGrantSweep(t *testing.T) {
 		}
 	}
 	rec.SetExhaustive(true)
-	rec.Extra("enumerated", "all 256 grant types x request/communication x 3 field-length shapes")
+	rec.Extra("enumerated", "all 256 grant types x request/communication x 3 field-length shapes; delivery pattern cycled through wire.DeliveryFor")
 }
 
 // ---------------------------------------------------------------------------
@@ -382,6 +396,7 @@ type c18Ag struct {
 	Type int    `json:"type"` // message type byte 0..255 (3 confirmation, 4 denial; 1 and 2 are covered above)
 	Len  int    `json:"len"`  // denial reason length
 	Seed uint64 `json:"seed"`
+	Dlv  wire.Delivery `json:"dlv"`
 }
 
 func c18AgRunA(c c18Ag, v *vlib.Verdict) {
@@ -446,6 +461,20 @@ func c18AgRunA(c c18Ag, v *vlib.Verdict) {
 		bad = fmt.Sprintf("reader consumed %d of %d encoded bytes", st.Consumed, len(enc))
 	}
 	if bad == "" {
+		wire.Redeliver(v, "C18", "authgrants.AgMessage", enc, true, c.Dlv, true, len(enc), func(st *wire.Stream) (string, string, error) {
+			var again AgMessage
+			var err error
+			if c.Type == 3 || c.Type == 4 {
+				again, err = ReadConfOrDenial(st)
+			} else {
+				_, err = again.ReadFrom(st)
+			}
+			if err != nil {
+				return "", "", err
+			}
+			f, d := c18AgDiff(&got, &again)
+			return f, d, nil
+		})
 		return
 	}
 	switch {
@@ -462,7 +491,7 @@ func c18AgRunA(c c18Ag, v *vlib.Verdict) {
 
 func TestVerifC18AgMessageEncDec(t *testing.T) {
 	vlib.Drive(t, vlib.Spec[c18Ag]{ID: "C18", Quick: 6000, Run: c18AgRunA, Gen: func(t *rapid.T) c18Ag {
-		c := c18Ag{Type: c18EnumGen(t, "type", []int{3, 4, 4, 4}), Len: c18StrLen(t, "len"), Seed: rapid.Uint64().Draw(t, "seed")}
+		c := c18Ag{Type: c18EnumGen(t, "type", []int{3, 4, 4, 4}), Len: c18StrLen(t, "len"), Seed: rapid.Uint64().Draw(t, "seed"), Dlv: wire.DrawDelivery(t)}
 		if c.Type == 1 || c.Type == 2 {
 			c.Type = 4 // intent-carrying types are the subject of TestVerifC18IntentEncDec (a zero Intent has pre-1970 times)
 		}
@@ -597,17 +626,29 @@ func c18AgRunB(c c18AgB, v *vlib.Verdict) {
 	if len(c.Muts) != 0 {
 		intent = nil
 	}
-	c18AgBytesB(in, intent, v)
+	c18AgBytesB(in, intent, c.Base.Dlv, v)
 }
 
 // c18AgBytesB is the decode -> encode -> decode oracle on raw bytes. intent,
 // when not nil, is the value the bytes were built from by hand (unmutated).
-func c18AgBytesB(in []byte, intent *Intent, v *vlib.Verdict) {
+// dlv: the delivery pattern under which the bytes are decoded once more.
+func c18AgBytesB(in []byte, intent *Intent, dlv wire.Delivery, v *vlib.Verdict) {
 	st := &wire.Stream{Data: in}
 	var val AgMessage
 	var err error
 	if vlib.Guard(v, func() { _, err = val.ReadFrom(st) }) {
 		v.Label("decoder-panicked")
+		return
+	}
+	wire.Redeliver(v, "C18", "authgrants.AgMessage", in, false, dlv, err == nil, st.Consumed, func(st *wire.Stream) (string, string, error) {
+		var again AgMessage
+		if _, err := again.ReadFrom(st); err != nil {
+			return "", "", err
+		}
+		f, d := c18AgDiff(&val, &again)
+		return f, d, nil
+	})
+	if !v.OK() {
 		return
 	}
 	if intent != nil {
@@ -677,6 +718,7 @@ func c18AgBGen(t *rapid.T) c18AgB {
 	if rapid.IntRange(0, 7).Draw(t, "denial") == 0 {
 		c.Deny = c18StrLen(t, "dlen")
 		c.Base.UserSeed = rapid.Uint64().Draw(t, "dseed")
+		c.Base.Dlv = wire.DrawDelivery(t)
 	} else {
 		c.Base = c18IntentGen(t)
 		// grant types whose readers panic are an open finding of their own; keep most of the budget on the others
@@ -712,6 +754,7 @@ type c18Proxy struct {
 	Seed     uint64 `json:"seed"`
 	ID       int    `json:"id"`
 	ReasonLn int    `json:"rlen"`
+	Dlv      wire.Delivery `json:"dlv"`
 }
 
 func c18Host(seed uint64, n int) string {
@@ -758,6 +801,13 @@ func c18ProxyRun(c c18Proxy, v *vlib.Verdict) {
 		}
 		ok := derr == nil && got != nil && *got == u && st.Consumed == len(enc)
 		if ok {
+			wire.Redeliver(v, "C18", "authgrants.TargetInfo", enc, true, c.Dlv, true, len(enc), func(st *wire.Stream) (string, string, error) {
+				again, err := ReadTargetInfo(st)
+				if err == nil && (again == nil || *again != *got) {
+					return "URL", fmt.Sprintf("%v instead of %v", again, got), nil
+				}
+				return "", "", err
+			})
 			return
 		}
 		what := fmt.Sprintf("ReadTargetInfo err=%v value=%v consumed %d of %d bytes", derr, got, st.Consumed, len(enc))
@@ -809,6 +859,14 @@ func c18ProxyRun(c c18Proxy, v *vlib.Verdict) {
 		}
 		ok = ok && st.Consumed == len(enc)
 		if ok {
+			// ReadResponse reports a failure message as an error that carries the reason: the "value" is the error text
+			wire.Redeliver(v, "C18", "authgrants.ProxyResponse", enc, true, c.Dlv, true, len(enc), func(st *wire.Stream) (string, string, error) {
+				again := ReadResponse(st)
+				if fmt.Sprint(again) != fmt.Sprint(rerr) {
+					return "response", fmt.Sprintf("%.60q instead of %.60q", fmt.Sprint(again), fmt.Sprint(rerr)), nil
+				}
+				return "", "", nil
+			})
 			return
 		}
 		what := fmt.Sprintf("ReadResponse returned %.60q, consumed %d of %d bytes", fmt.Sprint(rerr), st.Consumed, len(enc))
@@ -836,13 +894,21 @@ func c18ProxyRun(c c18Proxy, v *vlib.Verdict) {
 		}
 		if derr != nil || int(id) != c.ID&0xFF || st.Consumed != buf.Len() {
 			v.Failf("C18:roundtrip-mismatch:authgrants.ProxyID", "id %d reads as %d (err=%v), consumed %d of %d", c.ID, id, derr, st.Consumed, buf.Len())
+			return
 		}
+		wire.Redeliver(v, "C18", "authgrants.ProxyID", st.Data, true, c.Dlv, true, len(st.Data), func(st *wire.Stream) (string, string, error) {
+			again, err := ReadUnreliableProxyID(st)
+			if err == nil && again != id {
+				return "id", fmt.Sprintf("%d instead of %d", again, id), nil
+			}
+			return "", "", err
+		})
 	}
 }
 
 func TestVerifC18ProxyMessages(t *testing.T) {
 	vlib.Drive(t, vlib.Spec[c18Proxy]{ID: "C18", Quick: 6000, Run: c18ProxyRun, Gen: func(t *rapid.T) c18Proxy {
-		c := c18Proxy{Kind: rapid.SampledFrom([]int{0, 0, 0, 1, 1, 2, 3}).Draw(t, "kind"), Seed: rapid.Uint64().Draw(t, "seed"), Port: -1}
+		c := c18Proxy{Kind: rapid.SampledFrom([]int{0, 0, 0, 1, 1, 2, 3}).Draw(t, "kind"), Seed: rapid.Uint64().Draw(t, "seed"), Port: -1, Dlv: wire.DrawDelivery(t)}
 		switch c.Kind {
 		case 0:
 			c.UserLen = rapid.IntRange(0, 40).Draw(t, "ulen")
@@ -881,7 +947,7 @@ func FuzzVerifC18AgMessage(f *testing.F) {
 	}
 	f.Fuzz(func(t *testing.T, in []byte) {
 		var v vlib.Verdict
-		c18AgBytesB(in, nil, &v)
+		c18AgBytesB(in, nil, wire.DeliveryFor(wire.Hash64(in)), &v)
 		for _, vi := range v.Violations {
 			if !vlib.KnownOpen(vi.Sig) {
 				t.Fatalf("VERIF-VIOLATION sig=%s detail=%s", vi.Sig, vi.Detail)
